@@ -897,6 +897,10 @@ impl Callbacks for Cb {
                                 "name" => s(f.name),
                                 "ty" => cx.ty_j(fty),
                                 "pub" => J::B(f.vis.is_public()),
+                                "vis" => match f.vis {
+                                    ty::Visibility::Public => s("pub"),
+                                    ty::Visibility::Restricted(m) => s(format!("in {}", cx.key(m))),
+                                },
                             });
                         }
                         variants.push(obj! {"name" => s(v.name), "fields" => J::A(fields)});
